@@ -441,7 +441,8 @@ func settle(vnow int64, s *vsession, G int64) int64 {
 	return vnow
 }
 
-var emails = []string{"a@example.com", "b@other.com", "Bob@Example.COM", "bob@b.com", "m@evilexample.com", "m@sub.example.com"}
+var emails = []string{"a@example.com", "b@other.com", "Bob@Example.COM", "bob@b.com", "m@evilexample.com", "m@sub.example.com",
+	"bob@b.com\u200b", "\u212Aim@example.com", "a@exampl\u0435.com", "bo\u0184@b.com", "a@example.co\u217F", "\u017Fam.k@example.com", "sam.\u212A@example.com", "sam.k@example.com", "SAM.K@EXAMPLE.COM"}
 
 func genSession(r *c.Rng, w *world, vnow int64) *vsession {
 	off := func(opts ...int64) int64 { return vnow + opts[r.Intn(len(opts))]*sec }
@@ -564,6 +565,10 @@ func (w *world) pair(r *c.Rng, auth *c.FakeAuth) c.Case {
 		hostB = decoyHost
 	}
 	tokA, tokB := "tok-A", "tok-B"
+	if r.Chance(0.5) { // bearer tokens of one issuer share a long prefix (the JOSE header of a JWT) and may be long
+		jose := "eyJhbGciOiJSUzI1NiIsImtpZCI6InNzby1rZXktMjAyNi0wMSIsInR5cCI6IkpXVCJ9."
+		tokA, tokB = jose+"eyJzdWIiOiJhIn0.c2lnLWE", jose+"eyJzdWIiOiJiIn0.c2lnLWI"
+	}
 	if crossUpstream && r.Chance(0.6) {
 		tokB = tokA // the same user's sessions on two upstreams carry the same access token
 	}
@@ -772,6 +777,7 @@ func history(r *c.Rng, auth *c.FakeAuth, worlds []*world, linear bool, maxLen in
 	n := 2 + r.Intn(maxLen-1)
 	var steps []stepObs
 	outage, shape, outSt := 0, 0, 503
+	allXHR := r.Chance(0.25) // a single-page application: every request of the history is a background (XHR) call
 	for i := 0; i < n; i++ {
 		if outage > 0 && shape >= 3 && shape <= 5 {
 			// a persistent outage walked across the grace boundary in validity-period-sized strides
@@ -779,7 +785,7 @@ func history(r *c.Rng, auth *c.FakeAuth, worlds []*world, linear bool, maxLen in
 		} else {
 			vnow += dts[r.Intn(len(dts))] * sec
 		}
-		rq := reqSpec{Method: "GET", Path: "/x/data", CookieKind: "none"} // matches no world's skip-auth pattern
+		rq := reqSpec{Method: "GET", Path: "/x/data", CookieKind: "none", XHR: allXHR} // matches no world's skip-auth pattern
 		var pres *vsession
 		if cur != nil {
 			pres = cur
@@ -881,6 +887,7 @@ func main() {
 		{Doms: []string{"*"}},
 		{Groups: []string{"g1"}, Skip: []string{"auth$", "^/favicon", "page$"}},
 		{Doms: []string{"example.com", "*.example.com"}, CookieDomain: "example.test"},
+		{Addrs: []string{"sam.k@example.com", "a@example.com"}},
 	}
 	var worlds []*world
 	for _, p := range pols {
